@@ -328,3 +328,332 @@ Section WithRnd.
     - rewrite Forall_forall in Hc. specialize (Hin x (in_or_app _ _ _ (or_intror Hx))). rewrite (Hc x Hx) in Hin. exact Hin.
   Qed.
 End WithRnd.
+
+(* ---- M-level inversion facts used by the inversion tactic ---- *)
+Lemma rm_loop_struct rnd w flen : forall rest i s out s',
+  rm_loop rnd w flen i rest s = Ok (out, s') -> steps s s' /\ subseq out rest.
+Proof.
+  induction rest as [|x t IH]; intros i s out s'; cbn [rm_loop].
+  - intros H. apply ret_Ok in H. injection H as -> ->. split; [apply steps_refl|constructor].
+  - intros H. apply bindM_Ok in H. destruct H as (b & s1 & F & H). apply flipM_inv in F. destruct F as [F S1].
+    destruct b.
+    + apply IH in H. destruct H as (S2 & Sub). split; [eapply steps_trans; eauto|constructor; auto].
+    + apply bindM_Ok in H. destruct H as (r & s2 & R & H). apply ret_Ok in H. injection H as -> ->.
+      apply IH in R. destruct R as (S2 & Sub). split; [eapply steps_trans; eauto|constructor; auto].
+Qed.
+Lemma removeRandomCiphers_struct rnd s0 w s out s' :
+  removeRandomCiphers rnd s0 w s = Ok (out, s') ->
+  steps s s' /\ subseq out s0 /\ (match s0 with x :: _ => exists t, out = x :: t | [] => out = [] end).
+Proof.
+  unfold removeRandomCiphers. destruct s0 as [|x [|y t]].
+  - intros H. apply ret_Ok in H. injection H as -> ->. repeat split; [apply steps_refl|constructor].
+  - intros H. apply ret_Ok in H. injection H as -> ->. repeat split; [apply steps_refl|apply subseq_refl|eauto].
+  - intros H. apply bindM_Ok in H. destruct H as (r & s1 & R & H). apply ret_Ok in H. injection H as -> ->.
+    apply rm_loop_struct in R. destruct R as (S1 & Sub). repeat split; [exact S1|constructor; exact Sub|eauto].
+Qed.
+Lemma nz_steps s r : nz s -> steps s r -> nz r.
+Proof. intros Hz Hs st i r0 H1 H2. eapply Hz; [eapply steps_trans; eauto|eauto]. Qed.
+Lemma intnM_inv fuel n s k s' : intnM fuel n s = Ok (k, s') -> steps s s' /\ ((0 < n)%Z -> (0 <= k < n)%Z).
+Proof.
+  unfold intnM. intros H. apply liftO_Ok in H. split; [eapply intn_steps; eauto|]. apply intn_spec in H. tauto.
+Qed.
+Lemma shuffleM_inv {A} fuel (d : A) l s l' s' : shuffleM fuel d l s = Ok (l', s') -> steps s s' /\ Permutation l l'.
+Proof. unfold shuffleM. intros H. apply liftO_Ok in H. eapply shuffle_spec; eauto. Qed.
+
+Definition ieee_laws (rnd : Q -> Q) : Prop :=
+  (forall x y, (x <= y)%Q -> (rnd x <= rnd y)%Q) /\ (rnd 0 == 0)%Q /\ (rnd 1 == 1)%Q /\
+  (rnd (inject_Z 9223372036854775808) == inject_Z 9223372036854775808)%Q /\
+  (rnd (1 / inject_Z 9223372036854775808) == 1 / inject_Z 9223372036854775808)%Q /\
+  (forall x y, (x == y)%Q -> (rnd x == rnd y)%Q).
+
+Lemma Flip_false rnd st w b : ieee_laws rnd -> Flip rnd st w b -> w_le0 w -> b = false.
+Proof. intros (A & B & C & D & E & F). eapply Flip_le0; eauto. Qed.
+Lemma Flip_true rnd st w b : ieee_laws rnd -> Flip rnd st w b -> w_ge1 w -> nz st -> b = true.
+Proof.
+  intros (A & B & C & D & E & F) Hf Hw Hz. eapply (FlipIn_ge1 rnd A B C E F st); eauto. apply Flip_FlipIn. exact Hf.
+Qed.
+
+(* In / opt *)
+Lemma in_opt {A} (b : bool) (x y : A) : In y (opt b x) <-> b = true /\ y = x.
+Proof. destruct b; cbn [opt In]; intuition congruence. Qed.
+
+(* Full inversion of a successful run of [generate]: every bind is opened, every branch
+   split, and each primitive replaced by its specification (Flip / steps / Permutation /
+   subseq facts); [nz] is propagated down the stream when it is known at the start. *)
+Ltac use_steps Hs :=
+  match type of Hs with
+  | steps ?a ?b => try match goal with Hz : nz a |- _ => let Z := fresh "NZ" in pose proof (nz_steps _ _ Hz Hs) as Z end
+  end.
+Ltac spec_of Hm :=
+  match type of Hm with
+  | flipM _ _ _ = Ok _ => apply flipM_inv in Hm; let F := fresh "F" in let S := fresh "S" in destruct Hm as [F S]; use_steps S
+  | intnM _ _ _ = Ok _ => apply intnM_inv in Hm; let F := fresh "K" in let S := fresh "S" in destruct Hm as [S F]; use_steps S
+  | shuffleM _ _ _ _ = Ok _ => apply shuffleM_inv in Hm; let F := fresh "P" in let S := fresh "S" in destruct Hm as [S F]; use_steps S
+  | shuffledCiphers _ _ _ = Ok _ => apply shuffledCiphers_spec in Hm; let F := fresh "SC" in let S := fresh "S" in destruct Hm as [S F]; use_steps S
+  | removeRandomCiphers _ _ _ _ = Ok _ =>
+      let F := fresh "RM" in let S := fresh "S" in
+      pose proof (removeRandomCiphers_struct _ _ _ _ _ _ Hm) as [S F]; use_steps S
+  | ret _ _ = Ok _ => apply ret_Ok in Hm; inversion Hm; subst; clear Hm
+  | _ => idtac
+  end.
+Ltac inv_step H :=
+  lazymatch type of H with
+  | bindM _ _ _ = Ok _ =>
+      let a := fresh "a" in let s := fresh "s" in let Hm := fresh "Hm" in
+      apply bindM_Ok in H; destruct H as (a & s & Hm & H); cbv beta in H
+  | ret _ _ = Ok _ => fail
+  | (let '(_, _) := ?x in _) _ = Ok _ => destruct x
+  | (if ?b then _ else _) _ = Ok _ => destruct b eqn:?
+  | match flipM ?r ?w ?st with _ => _ end = Ok _ =>
+      let a := fresh "alps" in let sx := fresh "sx" in let Ha := fresh "Ha" in
+      destruct (flipM r w st) as [[a sx]|?|?] eqn:Ha; [|discriminate H|discriminate H]
+  end.
+
+Ltac simp_ver H :=
+  cbv beta iota in H;
+  try change (VersionTLS13 =? VersionTLS13) with true in H;
+  try change (VersionTLS12 =? VersionTLS13) with false in H.
+Ltac inv_loop H :=
+  simp_ver H;
+  lazymatch type of H with
+  | bindM _ _ _ = Ok _ =>
+      let a := fresh "a" in let s := fresh "s" in let Hm := fresh "Hm" in
+      apply bindM_Ok in H; destruct H as (a & s & Hm & H);
+      inv_loop Hm; inv_loop H
+  | ret _ _ = Ok _ => apply ret_Ok in H; inversion H; subst; clear H
+  | (if ?b || true then _ else _) _ = Ok _ => rewrite orb_true_r in H; inv_loop H
+  | (if ?b || false then _ else _) _ = Ok _ => rewrite orb_false_r in H; inv_loop H
+  | (if ?b then _ else _) _ = Ok _ => destruct b eqn:?; inv_loop H
+  | match flipM ?r ?w ?st with _ => _ end = Ok _ =>
+      let a := fresh "alps" in let sx := fresh "sx" in let Ha := fresh "Ha" in
+      destruct (flipM r w st) as [[a sx]|?|?] eqn:Ha; [|discriminate H|discriminate H];
+      apply flipM_inv in Ha; destruct Ha as [Ha _]; inversion H; subst; clear H
+  | _ => spec_of H
+  end.
+(* H : generate ... = Ok p *)
+Ltac gen_inv H :=
+  unfold generate in H;
+  match type of H with
+  | match ?v with _ => _ end = Ok _ => destruct v; [| | |discriminate H]
+  end;
+  match type of H with
+  | match ?body ?s with _ => _ end = Ok _ =>
+      let p0 := fresh "p" in let s' := fresh "s" in let HB := fresh "HB" in
+      destruct (body s) as [[p0 s']|?|?] eqn:HB; [|discriminate H|discriminate H];
+      injection H as <-; inv_loop HB
+  end.
+Lemma perm_in {A} (a b : list A) x : Permutation a b -> (In x b <-> In x a).
+Proof. intros P. split; apply Permutation_in; [apply Permutation_sym|]; exact P. Qed.
+Definition witness_keyshare : stream := [213;146;212;249;228;76;61;60;247;120;59;140;162;208;18;85;124;208;212;64;158;35;239;175;69;24;166;232;36;44;179;233;51;72;183;214;24;135;54;11;184;149;98;173;229;204;116;80;229;56;93;211;185;136;216;144;184;139;170;184;66;118;131;119;194;8;181;83;217;204;52;247;235;85;110;106;31;225;78;213;229;221;129;67;140;30;156;189;1;31;16;91;74;212;233;57;129;208;232;156;225;197;135;78;108;26;225;4;58;196;60;23;228;236;90;209;8;187;113;45;178;55;44;244;227;80;189;86;41;71;89;215;239;113;220;152;156;101;134;89;128;9;35;202;98;135;21;51;14;29;203;34;249;75;133;58;95;121;99;138;173;29;75;248;111;210;59;84;9;134;246;84;77;176;78;151;106;9;122;25;164;121;52;201;82;204;137;229;110;28;11;42;51;111;75;54;212;118;85;242;177;103;44;183;34;168;50;205;173;94;13;202;83;8;81;151;212;86;214;38;24;216;110;4;221;157;44;130;211;13;189;1;19;167;252;80;27;78;9;244;186;196;65;170;113;144;150;46;159;106;77;151;126;53;73;52;138;179;252;134;105;25;54;177;243;226;30;26;94;87;225;35;61;21;191;92;69;75;183;222;173;228;29;125;169;221;13;208;5;22;217;143;153;71;165;218;156;82;162;245;70;212;125;102;66;147;157;183;246;248;140;122;34;171;27;27;46;153;111;31;1;42;96;231;145;20;97;180;82;220;249;72;79;36;177;179;62;121;219;168;151;172;116;23;179;168;154;168;156;76;223;207;58;15;221;20;190;33;250;191;68;144;80;186;181;40;81;84;124;95;245;167;247;208;199;201;158;197;104;112;115;9;96;0;0;220;96;51;185;32;219;171;62;141;66;185;114;253;48;80;180;115;138;47;184;184;182;1;193;152;83;250;122;177;53;242;213;134;220;1;237;101;94;124;128;182;37;4;100;204;143;89;133;225;33;37;220;103;69;149;221;98;214;141;32;82;21;162;73;230;219;108;118;28;37;18;20;99;134;47;27;68;59;232;253;128;191;210;50;179;17;50;143;129;51;87;33;102;194;201;240;222;127;154;184;44;237;116;189;10;81;230;79;73;173;226;141;82;95;15;48;164;187;195;80;162;230;121;80;180;248;33;72;88;251;93;70;32;192;57;160;221;123;157;202;155;156;200;41;196;25;43;231;93;227;123;215;70;163;131;106;74;35;230;240;239;97;246;197;205;136;168;77;254;111;177;105;237;225;201;113;33;170;100;53;94;32;109;64;205;79;134;230;210;136;7;170;98;131;66;85;9;103;185;122;166;80;203;44;75;100;222;129;245;74;6;127;217;10;238;71;105;62;81;201;150;99;185;61;104;38;92;228;231;161;136;184;140;90;207;190;7;137;136;195;155;74;207;248;109;139;81;115;207;100;88;100;156;197;196;190;38;13;82;137;119;169;68;66;14;77;51;59;199;203;164;170;84;221;82;32;135;160;107;94;191;255;56;255;200;249;171;196;127;106;150;88;140;43;252;147;49;238;6;232;130;132;235;68;73;235;225;193;2;249;225;154;87;229;126;58;139;220;110].
+Definition witness_hybrid : stream := [108;25;22;18;247;191;42;149;141;250;150;199;13;55;0;86;210;84;91;111;148;41;64;49;248;199;245;149;219;94;183;236;18;231;70;204;126;190;78;201;152;11;3;211;73;65;1;219;149;44;101;245;25;80;133;251;78;41;19;185;194;54;58;22;103;71;92;184;218;44;214;100;212;249;41;14;170;121;98;97;243;153;76;17;160;134;66;35;236;230;184;133;167;210;13;64;147;2;185;120;2;109;52;165;134;2;51;247;94;98;118;210;254;99;25;76;248;64;42;12;14;29;73;37;74;211;113;191;173;151;161;16;169;125;50;128;44;126;55;230;75;56;197;184;159;84;8;174;236;96;221;246;46;55;63;229;40;227;212;171;5;34;97;14;95;155;231;147;77;178;48;177;48;36;95;114;218;170;14;68;72;102;20;29;23;25;117;19;181;190;54;200;126;240;244;23;242;97;210;102;158;189;173;148;152;250;55;154;186;248;120;85;118;28;238;74;144;220;204;12;160;197;101;191;111;109;246;179;121;39;20;77;221;224;87;231;180;76;44;33;103;79;6;55;118;67;148;0;21;35;130;186;143;15;237;59;160;95;40;81;4;170;22;233;129;208;254;26;66;178;22;3;91;78;74;239;1;138;75;93;46;131;211;132;42;144;161;136;11;241;213;38;81;201;52;202;31;63;206;207;186;175;138;41;80;40;1;143;81;8;56;97;112;97;125;239;95;36;218;26;254;36;131;44;201;44;140;3;136;134;28;196;4;24;12;208;14;204;244;202;65;93;102;78;121;48;132;221;178;125;166;194;254;59;252;65;37;252;48;121;3;48;232;178;79;135;22;155;155;74;53;88;98;99;131;129;7;117;32;132;215;68;36;32;250;203;153;181;57;116;234;41;193;135;98;210;107;68;201;150;185;222;67;101;41;194;115;87;224;78;113;216;158;206;223;26;178;200;214;110;30;197;209;169;73;148;118;55;112;104;128;63;226;167;125;205;129;3;102;133;166;111;244;239;24;230;19;51;124;190;234;175;179;236;195;186;151;45;187;152;226;31;17;13;47;56;176;153;209;100;175;102;97;222;30;254;25;45;197;123;47;146;189;161;173;17;26;147;54;17;161;37;119;185;143;82;245;121;1;212;64;203;246;176;36;163;191;164;94;144;31;109;180;22;117;187;15;138;118;223;34;125;55;159;221;153;64;6;197;101;35;28;124;13;159;50;11;156;206;88;91;32;234;177;234;92;80;100;78;252;163;176;78;77;240;53;44;127;58;121;34;64;231;228;139;103;85;66;123;100;214;68;227;156;38;251;47;45;23;91;167;116;49;41;27;107;140;82;25;68;54;251;50;139;217;227;237;98;237;131;132;95;57;162;168;242;179;40;74;12;44;57;129;6;53;59;101;39;48;144;181;196;61;176;251;58;157;164;214;154;163;220;218;151;201;114;215;48;193;153;160;220;146;62;19;86;42;94;137;4;247;177;217;93;20;103;121;252;76;204;89;168;30;193;121;3;106;32;214;179;118;213;101;23;20;95;138;211;25;211;85;102;15;139;130;12;248;117;30;159;2;212;109;49;243;95;55;240;189;221;16;61;18;133].
+
+(* ---- the property lemmas (restated in Props/C09.v) ---- *)
+Lemma generate_deterministic rnd fuel tb v w sn np s salted p q :
+  generate rnd fuel tb v w sn np s salted = p -> generate rnd fuel tb v w sn np s salted = q -> p = q.
+Proof. congruence. Qed.
+
+Ltac find_in :=
+  lazymatch goal with
+  | |- In _ (_ ++ _) => apply in_or_app; first [left; find_in | right; find_in]
+  | |- In _ (opt true _) => left; reflexivity
+  | |- In _ (_ :: _) => first [left; reflexivity | right; find_in]
+  end.
+Ltac split_or H :=
+  repeat match type of H with
+  | _ \/ _ => destruct H as [H|H]
+  end.
+(* rewrite membership in the shuffled extension list into membership in the list before the shuffle *)
+Ltac to_base H :=
+  cbn [sp_exts] in H;
+  match goal with P : Permutation (ESNI _ :: _) ?a |- _ =>
+    match type of H with In _ a => apply (proj1 (perm_in _ _ _ P)) in H end end;
+  cbn [In] in H; rewrite ?in_app_iff in H; cbn [In] in H; rewrite ?in_app_iff in H; rewrite ?in_opt in H.
+Ltac goal_base :=
+  cbn [sp_exts];
+  match goal with P : Permutation (ESNI _ :: _) ?a |- In _ ?a => apply (proj2 (perm_in _ _ _ P)) end.
+Ltac kill H := split_or H; try discriminate H; try (exfalso; exact H); try (destruct H as [_ H]; discriminate H).
+
+Lemma alps_needs_alpn rnd fuel tb v w sn np s salted p q :
+  generate rnd fuel tb v w sn np s salted = Ok p -> In (EALPS q) (sp_exts p) ->
+  (exists q', In (EALPN q') (sp_exts p)) /\ sp_max p = VersionTLS13.
+Proof.
+  intros H Hin. gen_inv H; to_base Hin; kill Hin;
+    (split; [eexists; goal_base; find_in|reflexivity]).
+Qed.
+
+Ltac norm_b := rewrite ?orb_true_r, ?orb_false_r, ?andb_true_r, ?andb_false_r in *.
+Ltac sig_base :=
+  match goal with P : Permutation (ECDSAWithP256AndSHA256 :: _) ?l |- In _ ?l => eapply Permutation_in; [exact P|] end.
+
+Lemma first_suite_kept rnd s0 w s out s' x t :
+  removeRandomCiphers rnd s0 w s = Ok (out, s') -> s0 = x :: t -> exists t', out = x :: t'.
+Proof. intros H ->. apply removeRandomCiphers_struct in H. destruct H as (_ & _ & H). exact H. Qed.
+
+Lemma weight0_no_removal rnd : ieee_laws rnd -> forall s0 w s out s',
+  removeRandomCiphers rnd s0 w s = Ok (out, s') -> w_le0 w -> out = s0.
+Proof.
+  intros (A & B & C & D & E & F) s0 w s out s' H Hw.
+  apply (removeRandomCiphers_spec rnd A B C D F) in H. destruct H as (_ & _ & H & _). auto.
+Qed.
+
+Lemma removeRC4_norc4 l : Forall (fun c => is_rc4 c = false) (removeRC4Ciphers l).
+Proof.
+  unfold removeRC4Ciphers. apply Forall_forall. intros c Hc. apply filter_In in Hc. destruct Hc as [_ Hc].
+  destruct (is_rc4 c); [discriminate|reflexivity].
+Qed.
+
+Lemma suite_order rnd fuel tb v w sn np s salted p :
+  generate rnd fuel tb v w sn np s salted = Ok p ->
+  exists a b c, sp_ciphers p = a ++ b ++ c /\
+    Forall (fun x => In x (t_tls13 tb)) a /\ Forall (row_in tb true) b /\ Forall (row_in tb false) c /\
+    (sp_max p <> VersionTLS13 -> a = []).
+Proof.
+  intros H. gen_inv H; cbn [sp_ciphers sp_max];
+  match goal with SC : exists b c, _ |- _ => destruct SC as (b & c & -> & Hb & Hc) end;
+  match goal with RM : subseq _ _ /\ _ |- _ => destruct RM as [RM _] end.
+  all: try (match goal with P : Permutation (t_tls13 _) ?a4 |- _ =>
+        unfold removeRC4Ciphers in RM;
+        assert (Sub := subseq_trans _ _ _ RM (filter_subseq _ _));
+        apply subseq_app_inv in Sub; destruct Sub as (l1 & l23 & -> & Q1 & Q23);
+        apply subseq_app_inv in Q23; destruct Q23 as (l2 & l3 & -> & Q2 & Q3);
+        exists l1, l2, l3; split; [reflexivity|]; repeat split;
+        [ eapply subseq_Forall; [exact Q1|]; apply Forall_forall; intros x Hx; eapply Permutation_in; [apply Permutation_sym; exact P|exact Hx]
+        | eapply subseq_Forall; eauto | eapply subseq_Forall; eauto | intros Hne; exfalso; apply Hne; reflexivity ] end).
+  all: apply subseq_app_inv in RM; destruct RM as (l2 & l3 & -> & Q2 & Q3);
+       exists [], l2, l3; split; [reflexivity|]; repeat split;
+       [constructor|eapply subseq_Forall; eauto|eapply subseq_Forall; eauto].
+Qed.
+
+Lemma tls13_rules rnd fuel tb v w sn np s salted p :
+  generate rnd fuel tb v w sn np s salted = Ok p -> sp_max p = VersionTLS13 ->
+  Forall (fun c => is_rc4 c = false) (sp_ciphers p) /\
+  (exists algs, In (ESigAlgs algs) (sp_exts p) /\ In PSSWithSHA256 algs) /\
+  In EPadding (sp_exts p) /\
+  (sp_min p = VersionTLS10 \/ sp_min p = VersionTLS12) /\
+  In (ESupportedVersions (makeSupportedVersions (sp_min p) (sp_max p))) (sp_exts p) /\
+  (exists ks, In (EKeyShare ks) (sp_exts p)).
+Proof.
+  intros H Hmax. gen_inv H; cbn [sp_max] in Hmax; try discriminate Hmax; norm_b; cbn [sp_ciphers sp_min sp_max];
+  match goal with RM : subseq _ _ /\ _ |- _ => destruct RM as [RM _] end;
+  match goal with K : (0 < 2)%Z -> _ |- _ => specialize (K eq_refl) end.
+  all: split; [eapply subseq_Forall; [exact RM|apply removeRC4_norc4]|].
+  all: split; [eexists; split; [goal_base; find_in|sig_base; find_in]|].
+  all: split; [goal_base; find_in|].
+  all: split; [match goal with K : (0 <= ?k < 2)%Z |- _ => assert (Hk : k = 0%Z \/ k = 1%Z) by lia; destruct Hk as [-> | ->]; cbn; auto end|].
+  all: split; [goal_base; find_in|eexists; goal_base; find_in].
+Qed.
+
+(* ---- F-09: key shares vs supported_groups ---- *)
+Definition default_weights : weights :=
+  Build_weights (fw_of_bits 4604480259023595110) (fw_of_bits 4600877379321698714) (fw_of_bits 4600877379321698714)
+    (fw_of_bits 4603849755075763241) (fw_of_bits 4603489467105573601) (fw_of_bits 4602768891165194322)
+    (fw_of_bits 4606281698874543309) (fw_of_bits 4604570331016142520) (fw_of_bits 4601958243232267633)
+    (fw_of_bits 4603759683083215831) (fw_of_bits 4604840546993784750) (fw_of_bits 4601958243232267633)
+    (fw_of_bits 4604930618986332160) (fw_of_bits 4605110762971426980) (fw_of_bits 0)
+    (fw_of_bits 4602678819172646912) (fw_of_bits 4599616371426034975).
+Definition witness_salted : stream := [1; 2; 3; 4; 5; 6; 7; 8].
+Ltac pick_in := repeat (first [left; reflexivity | right]).
+
+Lemma keyshare_in_groups_refuted :
+  ~ (forall rnd fuel tb v w sn np s salted p, generate rnd fuel tb v w sn np s salted = Ok p ->
+     forall ks gs, In (EKeyShare ks) (sp_exts p) -> In (ECurves gs) (sp_exts p) -> incl ks gs).
+Proof.
+  intros F. specialize (F rne 16%nat utls_table VALPN default_weights [] [] witness_keyshare witness_salted).
+  remember (generate rne 16 utls_table VALPN default_weights [] [] witness_keyshare witness_salted) as r eqn:E.
+  vm_compute in E. subst r. specialize (F _ eq_refl [4588; 29; 23] [29; 23; 24]).
+  assert (H : incl [4588; 29; 23] [29; 23; 24]) by (apply F; cbn; pick_in).
+  specialize (H 4588 (or_introl eq_refl)). cbn in H. destruct H as [H|[H|[H|[]]]]; discriminate H.
+Qed.
+
+Lemma hybrid_has_share_refuted :
+  ~ (forall rnd fuel tb v w sn np s salted p, generate rnd fuel tb v w sn np s salted = Ok p ->
+     forall ks gs, In (EKeyShare ks) (sp_exts p) -> In (ECurves gs) (sp_exts p) ->
+     In X25519MLKEM768 gs -> In X25519MLKEM768 ks).
+Proof.
+  intros F. specialize (F rne 16%nat utls_table VNoALPN default_weights [] [] witness_hybrid witness_salted).
+  remember (generate rne 16 utls_table VNoALPN default_weights [] [] witness_hybrid witness_salted) as r eqn:E.
+  vm_compute in E. subst r. specialize (F _ eq_refl [29; 23] [4588; 29; 23; 24; 25]).
+  assert (H : In X25519MLKEM768 [29; 23]) by (apply F; cbn; pick_in).
+  cbn in H. destruct H as [H|[H|[]]]; discriminate H.
+Qed.
+
+Ltac use_le0 L :=
+  repeat match goal with
+  | F : Flip _ _ ?w0 ?b, Hw : w_le0 ?w0 |- _ =>
+      let E := fresh "E" in pose proof (Flip_false _ _ _ _ L F Hw) as E; clear F;
+      first [discriminate E | subst b | clear E]
+  end.
+Ltac use_ge1 L :=
+  repeat match goal with
+  | F : Flip _ ?st ?w0 ?b, Hw : w_ge1 ?w0, Z : nz ?st |- _ =>
+      let E := fresh "E" in pose proof (Flip_true _ _ _ _ L F Hw Z) as E; clear F;
+      first [discriminate E | subst b | clear E]
+  end.
+(* resolve H : In (EKeyShare ks) base / In (ECurves gs) base to the explicit list *)
+Ltac resolve_ext H :=
+  to_base H; split_or H;
+  first [ discriminate H | (exfalso; exact H) | (destruct H as [_ H]; discriminate H)
+        | (let E := fresh "E" in injection H; intros E; clear H; subst) ].
+Ltac n_eq := cbv; intros Hq; discriminate Hq.
+
+Lemma keyshare_classical rnd fuel tb v w sn np s salted p ks gs :
+  generate rnd fuel tb v w sn np s salted = Ok p ->
+  In (EKeyShare ks) (sp_exts p) -> In (ECurves gs) (sp_exts p) ->
+  forall g, In g ks -> g <> X25519MLKEM768 -> In g gs.
+Proof.
+  intros H Hk Hg g Hin Hne. revert Hk Hg Hin. gen_inv H; norm_b; intros Hk Hg Hin; resolve_ext Hk; resolve_ext Hg;
+  rewrite ?in_app_iff in Hin; cbn [In] in Hin; rewrite ?in_opt in Hin; split_or Hin;
+  try (exfalso; exact Hin); try (destruct Hin as [_ Hin]); try (subst g); try (exfalso; apply Hne; reflexivity); find_in.
+Qed.
+
+Lemma keyshare_in_groups_cond rnd (L : ieee_laws rnd) fuel tb v w sn np s salted p ks gs :
+  generate rnd fuel tb v w sn np s salted = Ok p ->
+  In (EKeyShare ks) (sp_exts p) -> In (ECurves gs) (sp_exts p) ->
+  (w_le0 (w_ks_random w) \/ (nz s /\ (w_ge1 (w_x25519 w) \/ w_ge1 (w_ks_p256 w)))) -> incl ks gs.
+Proof.
+  intros H Hk Hg Hc g Hin.
+  destruct (N.eq_dec g X25519MLKEM768) as [->|Hne]; [|eapply keyshare_classical; eauto].
+  revert Hk Hg Hin. destruct Hc as [Hw | [Hz [Hw | Hw]]]; gen_inv H; norm_b; intros Hk Hg Hin; resolve_ext Hk; resolve_ext Hg;
+  first [use_le0 L | use_ge1 L];
+  rewrite ?in_app_iff in Hin; cbn [In opt] in Hin; rewrite ?in_opt in Hin; split_or Hin;
+  try (exfalso; exact Hin); try (cbv in Hin; discriminate Hin); try (destruct Hin as [_ Hin]; cbv in Hin; discriminate Hin);
+  find_in.
+Qed.
+
+Lemma keyshare_in_groups_holds_if rnd : ieee_laws rnd -> forall fuel tb v w sn np s salted p,
+  generate rnd fuel tb v w sn np s salted = Ok p ->
+  forall ks gs, In (EKeyShare ks) (sp_exts p) -> In (ECurves gs) (sp_exts p) ->
+  (forall g, In g ks -> g <> X25519MLKEM768 -> In g gs) /\
+  (w_le0 (w_ks_random w) \/ (nz s /\ (w_ge1 (w_x25519 w) \/ w_ge1 (w_ks_p256 w))) -> incl ks gs).
+Proof.
+  intros L fuel tb v w sn np s salted p H ks gs Hk Hg. split.
+  - eapply keyshare_classical; eauto.
+  - eapply keyshare_in_groups_cond; eauto.
+Qed.
+
+Lemma hybrid_has_share_holds_if rnd : ieee_laws rnd -> forall fuel tb v w sn np s salted p,
+  generate rnd fuel tb v w sn np s salted = Ok p ->
+  forall ks gs, In (EKeyShare ks) (sp_exts p) -> In (ECurves gs) (sp_exts p) ->
+  (w_le0 (w_x25519 w) \/ (nz s /\ w_ge1 (w_ks_random w) /\ w_le0 (w_ks_p256 w))) ->
+  In X25519MLKEM768 gs -> In X25519MLKEM768 ks.
+Proof.
+  intros L fuel tb v w sn np s salted p H ks gs Hk Hg Hc Hin.
+  revert Hk Hg Hin. destruct Hc as [Hw | (Hz & Hw & Hw')]; gen_inv H; norm_b; intros Hk Hg Hin; resolve_ext Hk; resolve_ext Hg;
+  use_le0 L; try use_ge1 L;
+  rewrite ?in_app_iff in Hin; cbn [In opt] in Hin; rewrite ?in_opt in Hin; split_or Hin;
+  try (exfalso; exact Hin); try (cbv in Hin; discriminate Hin); try (destruct Hin as [_ Hin]; cbv in Hin; discriminate Hin);
+  find_in.
+Qed.
+
+Lemma nz_example : nz [0; 0; 0; 0; 0; 0; 0; 1].
+Proof.
+  intros st i r (h & E & Hl) Hi.
+  destruct h as [|x0 h]; [cbn in E; subst st; vm_compute in Hi; injection Hi as <- _; discriminate|].
+  assert (Hlen : length (x0 :: h ++ st) = 8%nat) by (rewrite <- app_comm_cons, <- E; reflexivity).
+  cbn [length] in Hlen, Hl. rewrite app_length in Hlen.
+  assert (Hst : (length st < 8)%nat).
+  { destruct (Nat.eq_dec (length st) 8) as [E8|]; [|lia]. exfalso. assert (length h = 0)%nat by lia.
+    replace (S (length h)) with 1%nat in Hl by lia. discriminate Hl. }
+  unfold int63, uint64 in Hi.
+  destruct st as [|b0 [|b1 [|b2 [|b3 [|b4 [|b5 [|b6 [|b7 t]]]]]]]]; try discriminate Hi. cbn [length] in Hst. lia.
+Qed.
